@@ -142,7 +142,9 @@ static void step(const model &m0, bool is_add, const std::string &key, int v, in
   const char *B = is_add ? "after add: every key has its most recently added value" : "after remove: every remaining key keeps its value";
   std::vector<std::string> all(1, "");
   for (size_t i = 0; i < all.size(); ++i) if ((int) all[i].size() < depth) { all.push_back(all[i] + "a"); all.push_back(all[i] + "b"); }
+  for (int frozen = 0; frozen < 2; ++frozen)             /* observe the post-state through both lookups */
   for (size_t i = 1; i < all.size(); ++i) {
+    if (frozen) t.freeze();
     int e = ref_exact(m, all[i]);
     trie_t::result_t g = t.get(all[i].c_str());
     CHECK(g.success() == (e >= 0), A);
